@@ -115,6 +115,8 @@ func planters() []planter {
 	stepValid := map[string]bool{"description": true, "dir": true, "command": true, "script": true, "stdout": true, "stderr": true, "output": true, "env": true}
 	stepStr("steps", func(t *Y) *Y { return stepOf(t, 0) }, stepKeys, stepValid)
 	ps = append(ps,
+		// a command line whose ARGUMENT holds the substitution (what a shell-words parser with back-tick support would run)
+		planter{id: "steps.command.arg", bare: true, keepsValid: false, plant: func(t *Y, v string) { stepOf(t, 0).Set("command", Str("echo "+v+" tail")) }},
 		planter{id: "steps.command.item", plant: func(t *Y, v string) { stepOf(t, 0).Set("command", List(Str("echo"), Str(v))) }},
 		planter{id: "steps.depends", plant: func(t *Y, v string) { stepOf(t, 0).Set("depends", List(Str(v))) }},
 		planter{id: "steps.executor.type", plant: func(t *Y, v string) { stepOf(t, 0).Set("executor", Map(E("type", Str(v)))) }},
@@ -145,6 +147,7 @@ func planters() []planter {
 		stepStr("handlerOn."+h, get, []string{"command", "dir", "script", "stdout", "output", "description"},
 			map[string]bool{"command": true, "dir": true, "script": true, "stdout": true, "output": true, "description": true})
 		ps = append(ps,
+			planter{id: "handlerOn." + h + ".command.arg", bare: true, plant: func(t *Y, v string) { get(t).Set("command", Str("echo "+v)) }},
 			planter{id: "handlerOn." + h + ".executor.config", keepsValid: true, plant: func(t *Y, v string) {
 				get(t).Set("executor", Map(E("type", Str("mail")), E("config", Map(E("to", Str(v))))))
 			}},
